@@ -2,12 +2,18 @@
 //! snt-check: property-based checks for surf-n-term (see /verif/DESIGN.md)
 #[macro_use]
 mod engine;
+mod c02;
+mod c03;
 mod c04;
 mod c07;
 mod c08;
+mod c11;
+mod c12;
+mod c14;
 mod c15;
 mod c18;
 mod c20;
+mod hostile;
 mod refre;
 mod refsgr;
 mod ttyout;
@@ -78,9 +84,14 @@ fn main() {
         });
     }
     let code = match id.as_str() {
+        "C02" => dispatch(c02::C02, &mode),
+        "C03" => dispatch(c03::C03, &mode),
         "C04" => dispatch(c04::C04, &mode),
         "C07" => dispatch(c07::C07, &mode),
         "C08" => dispatch(c08::C08, &mode),
+        "C11" => dispatch(c11::C11, &mode),
+        "C12" => dispatch(c12::C12, &mode),
+        "C14" => dispatch(c14::C14, &mode),
         "C15" => dispatch(c15::C15, &mode),
         "C18" => dispatch(c18::C18, &mode),
         "C20" => dispatch(c20::C20, &mode),
